@@ -288,6 +288,13 @@ func CheckImports(run *core.Run, prog *load.Program) {
 	})
 	run.Floor("G-IMPORT/alias-writers", 1)
 	// ---------------- every lookup into an imports map uses a stripped key; the printed path is stripped too
+	type keySite struct {
+		obj      types.Object
+		key, pos string
+		ok       bool
+		msg      string
+	}
+	var keySites []keySite
 	funcsOf(prog, func(pkgPath string, inf *types.Info, fd *ast.FuncDecl, fnn *types.Func) {
 		if pkgPath != load.PkgRegistry {
 			return
@@ -305,10 +312,26 @@ func CheckImports(run *core.Run, prog *load.Program) {
 			if !isMap || !strings.HasSuffix(types.TypeString(mt.Elem(), nil), "registry.Package") {
 				return true
 			}
-			run.Check("G-IMPORT/keys", load.FuncName(fnn)+":"+types.ExprString(ix.X), prog.Pos(ix.Pos()), isStripped(inf, fd, ix.Index), fmt.Sprintf("%s indexes the import map %s with %s, which is not a vendor-stripped path: the same package could be registered or looked up under two keys", load.FuncName(fnn), types.ExprString(ix.X), types.ExprString(ix.Index)))
+			keySites = append(keySites, keySite{mapObjOf(inf, ix.X), load.FuncName(fnn) + ":" + types.ExprString(ix.X), prog.Pos(ix.Pos()), isStripped(inf, fd, ix.Index),
+				fmt.Sprintf("%s indexes the import map %s with %s, which is not a vendor-stripped path: the same package could be registered or looked up under two keys", load.FuncName(fnn), types.ExprString(ix.X), types.ExprString(ix.Index))})
 			return true
 		})
 	})
+	// a map to *Package is path-keyed if some site indexes it with a canonical path (a field or variable
+	// never indexed that way is another kind of index, e.g. by qualifier: what it does is decided by the
+	// registration and search tables of engine R)
+	pathKeyed := map[types.Object]bool{}
+	for _, ks := range keySites {
+		if ks.ok && ks.obj != nil {
+			pathKeyed[ks.obj] = true
+		}
+	}
+	for _, ks := range keySites {
+		if ks.obj != nil && !pathKeyed[ks.obj] {
+			continue
+		}
+		run.Check("G-IMPORT/keys", ks.key, ks.pos, ks.ok, ks.msg)
+	}
 	run.Floor("G-IMPORT/keys", 2)
 	// who may call AddImport
 	// callers: the type walker family (what AddVar reaches inside the registry) and the Mock family (what
@@ -1235,4 +1258,61 @@ func QualifierSearch(prog *load.Program) *types.Func {
 		return cands[0]
 	}
 	return nil
+}
+
+// mapObjOf: the variable or struct field a map expression denotes (r.imports -> the field imports).
+func mapObjOf(info *types.Info, e ast.Expr) types.Object {
+	switch x := ast.Unparen(e).(type) {
+	case *ast.Ident:
+		if v, ok := info.ObjectOf(x).(*types.Var); ok && v.IsField() {
+			return v
+		}
+		// a local or parameter: sites on different variables are judged one by one
+		return nil
+	case *ast.SelectorExpr:
+		return info.ObjectOf(x.Sel)
+	}
+	return nil
+}
+
+// CheckSourceScopeReaders (G-STABLE/source-scope, C15): the scope of a go/types package — what the
+// loaded source package declares, moq's own earlier output included when it was left in place — is
+// consulted only to look up the requested interfaces. Name allocation (what AddVar reaches) and import
+// registration (what AddImport reaches) must not read it: otherwise a second run over the first run's
+// output can name or qualify things differently.
+func CheckSourceScopeReaders(run *core.Run, prog *load.Program) {
+	naming := reachableFrom(prog, prog.LookupFunc(load.PkgRegistry, "MethodScope.AddVar"))
+	for f := range reachableFrom(prog, prog.LookupFunc(load.PkgRegistry, "Registry.AddImport")) {
+		naming[f] = true
+	}
+	n := 0
+	funcsOf(prog, func(pkgPath string, info *types.Info, fd *ast.FuncDecl, fn *types.Func) {
+		ast.Inspect(fd.Body, func(x ast.Node) bool {
+			call, ok := x.(*ast.CallExpr)
+			if !ok {
+				return true
+			}
+			callee, _ := typeutil.Callee(info, call).(*types.Func)
+			if callee == nil || callee.Pkg() == nil || callee.Pkg().Path() != "go/types" {
+				return true
+			}
+			full := callee.FullName()
+			if full != "(*go/types.Package).Scope" && !strings.HasPrefix(full, "(*go/types.Scope).") {
+				return true
+			}
+			// types.Universe is not the source package
+			if sel, ok := ast.Unparen(call.Fun).(*ast.SelectorExpr); ok {
+				if rs, ok := ast.Unparen(sel.X).(*ast.SelectorExpr); ok {
+					if v, ok := info.ObjectOf(rs.Sel).(*types.Var); ok && v.Pkg() != nil && v.Pkg().Path() == "go/types" && v.Name() == "Universe" {
+						return true
+					}
+				}
+			}
+			n++
+			run.Check("G-STABLE/source-scope", load.FuncName(fn)+"→"+callee.Name(), prog.Pos(call.Pos()), fn == nil || !naming[fn], fmt.Sprintf("%s reads the declarations of a loaded package (%s) and is reached from name allocation or import registration: what a parameter is called or how a package is qualified then depends on what else the package declares — including the mocks an earlier run left in place, so regenerating over moq's own output changes it", load.FuncName(fn), full))
+			return true
+		})
+	})
+	run.Floor("G-STABLE/source-scope", 1)
+	run.Count("source_scope_readers", n)
 }
